@@ -799,8 +799,15 @@ pub(crate) fn parse_year_month(source: &str) -> TemporalResult<IxdtfParseRecord>
 #[inline]
 pub(crate) fn parse_month_day(source: &str) -> TemporalResult<IxdtfParseRecord> {
     let md_record = parse_ixdtf(source, ParseVariant::MonthDay);
-    // Error needs to be a RangeError
-    md_record.map_err(|e| TemporalError::range().with_message(format!("{e}")))
+    if md_record.is_ok() {
+        return md_record;
+    }
+    // TemporalMonthDayString ::: AnnotatedMonthDay | AnnotatedDateTime
+    match parse_date_time(source) {
+        Ok(dt) => Ok(dt),
+        // Error needs to be a RangeError
+        _ => md_record.map_err(|e| TemporalError::range().with_message(format!("{e}"))),
+    }
 }
 
 #[inline]
